@@ -114,7 +114,7 @@ func c09Sched(nChecks int) func(c *sim.Case) {
 		if midLogin && nChecks > 1 && shapes[0] != "mid-login" {
 			c.Skip("mid-login is combined only as the first shape")
 		}
-		ho := histOpts{o: sim.WorldOpts{Store: store, AccessToken: forward, Logout: true}, idTTL: 600 * time.Second, expIn: 300, noRT: noRT}
+		ho := histOpts{o: sim.WorldOpts{Store: store, AccessToken: forward, Logout: true, CookiePrefix: []string{"", "tenant-a"}[combo%2]}, idTTL: 600 * time.Second, expIn: 300, noRT: noRT}
 		h := ho.build(c)
 		defer h.w.Close()
 		w := h.w
@@ -169,6 +169,15 @@ func c09Sched(nChecks int) func(c *sim.Case) {
 		lr := logout.resp
 		if lr.Panic != nil || !lr.IsRedirect() || lr.Location() != w.ExpectLogoutURI {
 			c.Violation("logout-answer", "logout answered %v, want a redirect to %s", lr, w.ExpectLogoutURI)
+		}
+		expiredCookie := false
+		for _, sc := range lr.SetCookies() {
+			if sc.Name == w.CookieName() && (sc.Attrs["max-age"] == "0" || strings.HasPrefix(sc.Attrs["max-age"], "-")) {
+				expiredCookie = true
+			}
+		}
+		if !expiredCookie {
+			c.Violation("logout-cookie-not-expired", "the logout answer does not expire the session cookie %q: %v", w.CookieName(), lr.Get("set-cookie"))
 		}
 		tL := logout.doneAt
 		// probe: the same cookie, alone, after everything
